@@ -86,9 +86,13 @@ func c08Gen(rt *rapid.T) wProg {
 				U: rapid.IntRange(1, 3).Draw(rt, "target"), B: gPick(rt, gGivenModes, "given")}
 		case x < 54:
 			return wOp{K: "del", S: 0, T: "g0", A: "sub", U: rapid.IntRange(1, 3).Draw(rt, "target")}
-		case x < 63:
+		case x < 61:
 			return wOp{K: "set", S: s, T: topicFor(s), A: gPick(rt, []string{"public", "private", "private", "defacs", "trusted"}, "what"),
 				B: gPick(rt, []string{"a", "b", "JRWPS", "JRW", "␡"}, "val")}
+		case x < 63:
+			// one request changing a topic-level and a per-user field: two store writes
+			v := gPick(rt, []string{"a", "b", "c"}, "val")
+			return wOp{K: "set", S: s, T: topicFor(s), A: "desc", H: map[string]any{"public": map[string]any{"fn": v}, "private": map[string]any{"c": v}}}
 		case x < 68:
 			return wOp{K: "set", S: s, T: topicFor(s), A: "tags", X: gPick(rt, [][]string{{"alpha"}, {"alpha", "beta"}, {}, {"gamma", "Delta "}}, "tags")}
 		case x < 76:
@@ -107,6 +111,20 @@ func c08Gen(rt *rapid.T) wProg {
 	n := rapid.IntRange(3, 14).Draw(rt, "nops")
 	for i := 0; i < n; i++ {
 		switch x := rapid.IntRange(0, 99).Draw(rt, "ctl"); {
+		case x < 4:
+			// self-ban, then come back without naming a mode (the server picks one)
+			s := rapid.IntRange(1, len(p.Sess)-1).Draw(rt, "s")
+			p.Ops = append(p.Ops, wOp{K: "set", S: s, T: "g0", A: "mode", B: "N"})
+			if gPct(rt, 50) {
+				p.Ops = append(p.Ops, wOp{K: "sub", S: s, T: "g0"})
+			} else {
+				p.Ops = append(p.Ops, wOp{K: "set", S: s, T: "g0", A: "mode", B: ""})
+			}
+		case x < 7:
+			// ownership offered but not (yet) accepted, then the topic is loaded again
+			p.Ops = append(p.Ops, wOp{K: "set", S: 0, T: "g0", A: "given", U: rapid.IntRange(1, 2).Draw(rt, "heir"), B: gPick(rt, []string{"JRWPASDO", "JRWPSO"}, "grant")},
+				wOp{K: gPick(rt, []string{"reload", "restart"}, "how"), T: "g0"})
+			p.Ops = append(p.Ops, wOp{K: "get", S: 0, T: "g0", A: "tags"}, wOp{K: "set", S: 0, T: "g0", A: "tags", X: []string{"alpha"}})
 		case x < 72:
 			p.Ops = append(p.Ops, anyOp())
 		case x < 84:
@@ -428,6 +446,7 @@ func diffDigest(a, b map[string]string) string {
 }
 
 type c08Obs struct {
+	preStore *mem.State
 	tolerated map[string]bool
 	known    func(*kit.Viol) bool
 	pre      map[string]string
@@ -437,7 +456,8 @@ type c08Obs struct {
 }
 
 func (o *c08Obs) Before(w *wWorld, op *wOp) {
-	o.pre = c08StoreDigest(mem.A.Snapshot())
+	o.preStore = mem.A.Snapshot()
+	o.pre = c08StoreDigest(o.preStore)
 }
 
 func (o *c08Obs) report(v *kit.Viol) *kit.Viol {
@@ -499,7 +519,7 @@ func (o *c08Obs) After(w *wWorld, st *wStep) *kit.Viol {
 			if d := diffDigest(o.pre, post); d != "" {
 				tr := mem.A.Trace(false)
 				_ = tr
-				if v := o.report(kit.V("after-fault:"+opShape(&st.Op)+":failed-request-changed-store:"+topicKind(st.Route), "request %s was answered %d %s after an injected store failure but the store changed: %s", st.Req, c.Code, c.Text, d)); v != nil {
+				if v := o.report(kit.V("after-fault:"+opShape(&st.Op)+":refused:failed-request-changed-store:"+topicKind(st.Route), "request %s was answered %d %s after an injected store failure but the store changed: %s", st.Req, c.Code, c.Text, d)); v != nil {
 					return v
 				}
 			}
@@ -531,7 +551,20 @@ func (o *c08Obs) After(w *wWorld, st *wStep) *kit.Viol {
 		case strings.HasSuffix(v.Sig, ":chan-reader"):
 			v.Sig = "chan-reader:" + v.Sig
 		case st.Fired:
-			v.Sig = "after-fault:" + opShape(&st.Op) + ":" + v.Sig
+			// how the request was answered is part of the root cause: a refused request whose first
+			// write persisted is one thing, an acknowledged request which was not stored another
+			ack := "refused"
+			if st.ok() {
+				ack = "acked"
+			} else if st.reply() == nil {
+				ack = "unanswered"
+			}
+			v.Sig = "after-fault:" + opShape(&st.Op) + ":" + ack + ":" + v.Sig
+		case strings.HasPrefix(v.Sig, "diverged:sub-private:") && !st.Skipped && strings.Contains(d.key, st.Route) &&
+			((st.Op.K == "sub" && c08WasDeleted(o.preStore, st.Route, w, st.User)) || (st.Op.K == "set" && st.Op.A == "given" && c08WasDeleted(o.preStore, st.Route, w, st.Op.U))):
+			// re-subscription: the adapter keeps the private value of the soft-deleted row (undelete),
+			// the topic caches the value of the request (none)
+			v.Sig = "resubscribe-private-resurrected:" + topicKind(st.Route)
 		case st.Op.K == "set" && !st.Skipped && w.sessOK(st.Sess) && w.sess[st.Sess].s.getSub(st.Route) == nil:
 			// {set} from a session that is not attached is served from the store path even when
 			// the topic is loaded (hub.meta -> replyOfflineTopicSetSub)
@@ -549,6 +582,19 @@ func (o *c08Obs) After(w *wWorld, st *wStep) *kit.Viol {
 		}
 	}
 	return nil
+}
+
+// c08WasDeleted: user u had a soft-deleted subscription row on route before the step.
+func c08WasDeleted(st *mem.State, route string, w *wWorld, u int) bool {
+	if st == nil || u < 0 || u >= len(w.users) {
+		return false
+	}
+	for _, r := range st.Subs {
+		if r.Topic == route && r.User == w.users[u].uid {
+			return r.DeletedAt != nil
+		}
+	}
+	return false
 }
 
 func topicKind(route string) string {
